@@ -73,6 +73,14 @@ def run_shard(ctx):
             with open(f, encoding="utf-8", errors="replace") as fh:
                 judge_listing(ctx, ws, fh.read(), "fixture:" + os.path.basename(f))
             ctx.event("fixtures")
+    from jv import asmgen
+    for _ in range(ctx.share(16, 400)):
+        bits = ctx.rng.choice([64, 32])
+        r = asmgen.assemble(ws, [asmgen.template(ctx.rng, bits) for _ in range(150)], bits)
+        if r is None:
+            ctx.inconc("as refused a template batch")
+        else:
+            judge_listing(ctx, ws, r[1], f"as{bits}")
     n = ctx.share(160, 6000)
     for k in range(n):
         blob, secs, bits = objd.random_object(ctx.rng, size=(300, 3000) if ctx.tier == "quick" else (300, 6000))
@@ -81,6 +89,8 @@ def run_shard(ctx):
         if rc != 0:
             ctx.inconc("objdump failed on generated object")
             continue
+        if "\t...\n" in out:
+            ctx.event("listings_with_zero_run_elision")
         judge_listing(ctx, ws, out, f"elf{bits}/{len(secs)}sec")
 
 
